@@ -168,10 +168,10 @@ func (s irAlphaState) IsAlphabet() bool { return s.w.isAlpha }
 
 type irNetState struct{}
 
-func (irNetState) Epoch() (uint64, error)                       { return 10, nil }
-func (irNetState) NetMap() (*netmap.NetMap, error)              { return nil, errors.New("no netmap in harness") }
-func (irNetState) GetEpochBlock(uint64) (uint32, error)         { return 1, nil }
-func (irNetState) GetEpochBlockByTime(uint32) (uint32, error)   { return 1, nil }
+func (irNetState) Epoch() (uint64, error)                     { return 10, nil }
+func (irNetState) NetMap() (*netmap.NetMap, error)            { return nil, errors.New("no netmap in harness") }
+func (irNetState) GetEpochBlock(uint64) (uint32, error)       { return 1, nil }
+func (irNetState) GetEpochBlockByTime(uint32) (uint32, error) { return 1, nil }
 
 type irClock struct{}
 
@@ -718,7 +718,7 @@ func irExec(c *runCtx, ops []string) {
 		w.mu.Unlock()
 		if cls != "ok" {
 			orc("no-cosign-without-prepared-request", len(signed) == 0, line)
-			emitObs("=> "+cls)
+			emitObs("=> " + cls)
 			continue
 		}
 		ev := "parseErr"
